@@ -2,18 +2,22 @@
 #ifndef VF_COMMON_H
 #define VF_COMMON_H
 #define PACKET_INIT ((struct packet){ PACKET_DEFAULTS })
-#define PKT_VALID(p) ((p).type >= PKT_uninitialized && (p).type <= PKT_payload && (p).bufsz <= SZ_MAX && \
+#define PKT_VALID(p) ((p).type >= PKT_uninitialized && (p).type <= PKT_payload && (p).bufsz <= PKT_MAX && \
                       (p).overhead >= 0 && (p).overhead <= 1024 && FN_SLOT_OK_OR_CB((p).drop_fun))
 #define FN_SLOT_OK_OR_CB(t) ((t) >= 0)
 #define PKT_SIZE(p) ((int)((p).bufsz + (p).overhead))
 #define PKT_SAME(a, b) ((a).g_id == (b).g_id && (a).type == (b).type && (a).ec == (b).ec && (a).bufsz == (b).bufsz && \
    (a).buffer.id == (b).buffer.id && (a).from == (b).from && (a).overhead == (b).overhead && (a).channel == (b).channel && \
    (a).seq_nr == (b).seq_nr && (a).byte_counter == (b).byte_counter && (a).hops.id == (b).hops.id && (a).hops.len == (b).hops.len)
+/* a is the packet that p was when the function was entered */
+#define PKT_SAME_OLD(a, p) ((a).g_id == OLD((p).g_id) && (a).type == OLD((p).type) && (a).ec == OLD((p).ec) && (a).bufsz == OLD((p).bufsz) && \
+   (a).buffer.id == OLD((p).buffer.id) && (a).from == OLD((p).from) && (a).overhead == OLD((p).overhead) && (a).channel == OLD((p).channel) && \
+   (a).seq_nr == OLD((p).seq_nr) && (a).byte_counter == OLD((p).byte_counter) && (a).hops.id == OLD((p).hops.id) && (a).hops.len == OLD((p).hops.len))
 static inline bool packet_ok_to_drop_spec(int type) { return type != PKT_syn_ack && type != PKT_ack && type != PKT_error; }
 
 /* representation invariant of high_resolution_timer (proved by every function of the timer unit) */
 #define INV_hrtimer(t) (BOOL_OK((t)->m_expired) && BOOL_OK((t)->g_in_queue) && ((t)->m_handler == 0 || !(t)->m_expired) && (t)->g_in_queue == !(t)->m_expired && \
-                        (t)->m_handler >= 0 && (t)->m_expiration_time >= -T_MAX && (t)->m_expiration_time <= T_MAX)
+                        (t)->m_handler >= 0 && (t)->m_expiration_time >= -TE_MAX && (t)->m_expiration_time <= TE_MAX)
 /* "expired" must mean "the expiry has passed": otherwise a later wait completes successfully before its expiry */
 #define EXPIRED_MEANS_PAST(t) (!(t)->m_expired || (t)->m_expiration_time <= g_now)
 #endif
